@@ -214,6 +214,21 @@ def c05_cases(ctx, bases, rnd):
                 else:
                     for pos in range(a, z):
                         add(bf, [[2, pos, rnd.randrange(8)]], "flip-" + kind)
+        # descriptor bytes replaced by values the specification does not allow (reserved block-size codes, other versions,
+        # reserved bits) with the header checksum RECOMPUTED: only the field validation can refuse these
+        if not bf["case"]["opts"]["legacy"]:
+            f0 = w["frames"][0]
+            flg, bd = f0["flg"], f0["bd"]
+            hcpos = next(a for k, a, z in lay if k == "hc")
+            csz = []
+            for limb in f0.get("csize") or []:
+                csz += [limb & 255, limb >> 8]
+            for nflg, nbd in [(flg, (bd & 0x8F) | (code << 4)) for code in (0, 1, 2, 3)] + [(flg, bd | 0x80), (flg, bd | 0x01), (flg & 0x3F, bd), (flg | 0x80, bd),
+                                                                                       ((flg & 0x3F) | 0x80, bd), (flg | 0x02, bd)]:
+                if bf is not bases[0] and q and rnd.random() < 0.5:
+                    continue
+                desc = [nflg, nbd] + (csz if len(csz) == 8 else [])
+                add(bf, [[3, 4, nflg], [3, 5, nbd], [3, hcpos, (xxh32(desc) >> 8) & 255]], "descriptor-with-valid-hc")
         spans = block_spans(lay)
         if len(spans) >= 2:
             for _ in range(3 if q else 10):
